@@ -503,6 +503,78 @@ func c16stress(c *Ctx) {
 			for f := range m.Vec {
 				fields = append(fields, f)
 			}
+			// cold-cache duels: two openers of the same field, one with and one without
+			// filtering, released together on an empty cache; the unfiltered handle
+			// stays open across expiry ticks after the filtered one was closed
+			for duel := 0; duel < 12; duel++ {
+				f := fields[duel%len(fields)]
+				vm := m.Vec[f]
+				qs := genQueries(rng, vm, m.NumDocs, true)
+				var uq, fq vecQuery
+				for _, q := range qs {
+					if len(q.q) != vm.Dims {
+						continue
+					}
+					if q.filtered {
+						fq = q
+					} else {
+						uq = q
+					}
+				}
+				if uq.q == nil || fq.q == nil {
+					continue
+				}
+				for p := 0; p < 6 && zap.VerifVecCacheLen(o) > 0; p++ {
+					zap.VerifVecCacheExpire(o)
+				}
+				exSet, exBM := genExcept(rng, m.NumDocs, duel%5)
+				start := make(chan struct{})
+				filteredClosed := make(chan struct{})
+				var dw sync.WaitGroup
+				for side := 0; side < 2; side++ {
+					dw.Add(1)
+					go func(side int) {
+						defer dw.Done()
+						vq := uq
+						if side == 1 {
+							vq = fq
+						}
+						tag := fmt.Sprintf("%s duel %d field %q filtered=%v", id, duel, f, vq.filtered)
+						<-start
+						idx, err := vs.InterpretVectorIndex(f, vq.filtered, exBM)
+						if err != nil {
+							c.R.Fail("vec-open-err", "%s: %v", tag, err)
+							if side == 1 {
+								close(filteredClosed)
+							}
+							return
+						}
+						if got, ok := searchHandle(c.R, tag, idx, vq); ok {
+							checkVecResult(c.R, tag, vm, exSet, vq, got, len(vm.Entries) < 1000)
+						}
+						if side == 1 {
+							idx.Close()
+							close(filteredClosed)
+							return
+						}
+						<-filteredClosed
+						for p := 0; p < 4; p++ {
+							zap.VerifVecCacheExpire(o)
+						}
+						time.Sleep(200 * time.Microsecond) // an evicted index is closed asynchronously
+						if got, ok := searchHandle(c.R, tag+" (after the other handle was closed and expiry ticks)", idx, vq); ok {
+							checkVecResult(c.R, tag+" (after the other handle was closed and expiry ticks)", vm, exSet, vq, got, len(vm.Entries) < 1000)
+						}
+						idx.Close()
+					}(side)
+				}
+				close(start)
+				dw.Wait()
+				for _, v := range faiss.MonitorViolations() {
+					c.R.Fail("engine-misuse", "%s duel %d: %s", id, duel, v)
+				}
+				c.R.Inc("c16_cold_cache_duels", 1)
+			}
 			var wg sync.WaitGroup
 			for j := 0; j < g; j++ {
 				grng := rand.New(rand.NewSource(rng.Int63()))
